@@ -175,10 +175,43 @@ def build_panos(acl, raw):
     return dict(model='PAN-OS', device=vs([]), netspoc=vs(nr), raw=vs(rr) if raw else None), texts
 
 
-def parse_panos(out, texts):
+def build_panos_multi(rng, acl, v6, raw):
+    """Netspoc IPv4 part: vsys1; the raw part also (or only) names vsys3, the IPv6 part only vsys2: a vsys known from one part only
+    -> (job, texts, [(vsys, acl, raw)])"""
+    texts = {}
+
+    def cfg(vsys):
+        return ('<config><devices><entry name="localhost.localdomain"><vsys>%s</vsys></entry></devices></config>\n' %
+                ''.join('<entry name="%s"><rulebase><security><rules>%s</rules></security></rulebase></entry>' % (n, ''.join(rules)) for n, rules in vsys))
+
+    def rules(prefix, es, raw_=False):
+        out = []
+        for e in es:
+            texts['%s%d' % (prefix, e[0])] = e[0]
+            out.append(pan_rule('%s%d' % (prefix, e[0]), raw_ and e[2]))
+        return out
+    mode = rng.choice(['all3', 'split', 'split'])
+    raw1 = [e for e in raw if mode == 'split' and rng.random() < 0.5]
+    raw3 = [e for e in raw if e not in raw1]
+    rawv = ([('vsys1', rules('raw', raw1, True))] if raw1 else []) + ([('vsys3', rules('raw', raw3, True))] if raw3 else [])
+    if rawv and rng.random() < 0.5:
+        rawv.reverse()
+    subs = [('vsys1', acl, raw1)]
+    if raw3:
+        subs.append(('vsys3', [], raw3))
+    if v6:
+        subs.append(('vsys2', v6, []))
+    job = dict(model='PAN-OS', device=cfg([('vsys1', []), ('vsys2', []), ('vsys3', [])]), netspoc=cfg([('vsys1', rules('r', acl))]),
+               raw=cfg(rawv) if rawv else None, ipv6=cfg([('vsys2', rules('r', v6))]) if v6 else None)
+    return job, texts, subs
+
+
+def parse_panos(out, texts, vsys=None):
     import re
     ids = []
     for ln in out.split('\n'):
+        if vsys is not None and ("/vsys/entry[@name='%s']/" % vsys) not in ln:
+            continue
         m = re.search(r"action=set&type=config&xpath=.*?/rulebase/security/rules/entry\[@name='([^']+)'\]&element", ln)
         if m:
             ids.append(texts.get(m.group(1), 9999))
@@ -221,6 +254,12 @@ def main(ctx):
                     kind = 2
                 jobs.append(job)
                 meta.append((fam, kind, acl, v6, raw, texts))
+        for _ in range(n):
+            # PAN-OS with a vsys that only the raw part or only the IPv6 part knows (one Coq case per vsys)
+            acl, v6, raw = gen_parts(ctx.rng, True)
+            job, texts, subs = build_panos_multi(ctx.rng, acl, v6, raw)
+            jobs.append(job)
+            meta.append(('PAN-OS', 2, acl, v6, raw, dict(texts, __subs=subs)))
         res = drcrun.run_many(ctx, jobs)
         items, used = [], []
         for i, (job, r, (fam, kind, acl, v6, raw, texts)) in enumerate(zip(jobs, res, meta)):
@@ -232,6 +271,11 @@ def main(ctx):
                 continue
             if r['rc'] != 0:
                 breaks.append(dict(correspondence='%s: generated parts rejected' % fam, case=rep))
+                continue
+            if '__subs' in texts:
+                for vname, acl_, raw_ in texts['__subs']:
+                    items.append(c_case(2, acl_, [], raw_, parse_panos(r['out'], texts, vname)))
+                    used.append((i, dict(rep, vsys=vname), fam))
                 continue
             obs = {'ASA': parse_asa, 'IOS': parse_ios, 'Linux': parse_linux, 'PAN-OS': parse_panos}[fam](r['out'], texts)
             items.append(c_case(kind, acl, v6, raw, obs))
@@ -249,7 +293,7 @@ def main(ctx):
             elif vv[0]:
                 breaks.append(dict(correspondence='Merge.Model vs %s merge' % fam, case=rep))
         cov = dict(evaluations=len(jobs), distinct_nontrivial=len(set(items)),
-                   rule='ASA (v4, v4+v6, raw, raw with [APPEND]), IOS, Linux chain, PAN-OS rulebase: parts with 0-6 entries, '
+                   rule='ASA (v4, v4+v6, raw, raw with [APPEND]), IOS, Linux chain, PAN-OS rulebase (also with a vsys known only from the raw or the IPv6 part): parts with 0-6 entries, '
                         'ACLs without permitting entries, only [APPEND] entries, empty parts; distinct by (parts, observed order)',
                    traces_validated_against_impl=len(items), correspondence_mismatches=len(breaks),
                    with_append=sum(1 for m in meta if any(e[2] for e in m[4])), without_permit=sum(1 for m in meta if not any(e[1] for e in m[2])),
